@@ -87,7 +87,7 @@ func c17Entries(list string) []c17Entry {
 				g.PerMessageBurnLimitList = append(g.PerMessageBurnLimitList, cctptypes.PerMessageBurnLimit{Denom: d, Amount: math.NewInt(a)})
 			}}
 		}
-		return []c17Entry{mk("uusdc", 5), mk("uusdc", 7), mk("uatom", 5), mk("uosmo", 5)}
+		return []c17Entry{mk("uusdc", 5), mk("uusdc", 7), mk("uatom", 0), mk("uosmo", 5)} // a limit of 0 closes the denom: it must round-trip too
 	case "pairs":
 		mk := func(d uint32, t []byte, l string) c17Entry {
 			return c17Entry{pairKey(d, t), func(g *cctptypes.GenesisState) {
@@ -387,6 +387,7 @@ func c17Reachable(r *Run, depth, shard int) {
 	menu = append(menu,
 		Act("updateOwner(A0) by A0", &cctptypes.MsgUpdateOwner{From: Owner.Str, NewOwner: Owner.Str}),
 		Act("setMaxBurnAmountPerMessage(UATOM,2^200) by A3", &cctptypes.MsgSetMaxBurnAmountPerMessage{From: TokenCtl.Str, LocalToken: "UATOM", Amount: intFromBig(bigPow2(200))}),
+		Act("setMaxBurnAmountPerMessage(uosmo,0) by A3", &cctptypes.MsgSetMaxBurnAmountPerMessage{From: TokenCtl.Str, LocalToken: "uosmo", Amount: math.NewInt(0)}),
 		MkSend(UserA.Str, DomEth, distinct32(0x21), []byte("a")),
 		MkSendWithCaller(UserA.Str, DomEth, distinct32(0x21), []byte("a"), distinct32(0x22)),
 		MkDeposit(UserA.Str, math.NewInt(9), DomEth, distinct32(0x24), "uusdc"),
